@@ -1662,6 +1662,12 @@ def main():
             info['status'] = 'translated'
         except (Untranslatable, IndexError, ValueError, OSError) as ex:
             body = '  ' + cfg['fallback']
+            if cfg.get('oursqrt'):                 # the helper definitions the lemma file refers to, in their model form
+                parts.append('def min_our_sqrt_inner (b : Nat) : Nat :=\n  (fmul q b b)\n')
+                parts.append('def min_our_sqrt_step (i : Nat) (z t b c : Nat) : Nat × Nat × Nat × Nat :=\n'
+                             '  let bb := (List.range (i - 2)).foldl (fun b _ => min_our_sqrt_inner b) b\n'
+                             '  ((if (!(bb == 1)) then (fmul q z c) else z), (if (!(bb == 1)) then (fmul q t (fmul q c c)) else t), '
+                             '(if (!(bb == 1)) then (fmul q t (fmul q c c)) else t), (fmul q c c))\n')
             info['status'] = 'untranslated'
             info['reason'] = '%s: %s' % (type(ex).__name__, ex)
         report[cfg['name']] = info
